@@ -57,7 +57,7 @@ class State:
         s.ghost = {}
         for k, v in self.ghost.items():
             if isinstance(v, list):
-                v = list(v)
+                v = [dict(x) if isinstance(x, dict) else x for x in v]
             elif isinstance(v, dict):
                 v = dict(v)
             elif isinstance(v, set):
